@@ -37,6 +37,7 @@ DECODER_LAYOUT = ["layout:enum DF", "layout:struct ADSB", "layout:enum ME", "lay
 
 class C02(Prop):
     id = "C02"; module = "Adsb.Theorems.C02"; design_ref = "5/C02"
+    modules = ["Adsb.Theorems.C02", "Adsb.Theorems.C03b"]
     deps = DECODER_LAYOUT + ["layout:enum OperationStatus", "layout:struct OperationStatusAirborne", "layout:struct OperationStatusSurface",
             "layout:struct CapabilityClassAirborne", "layout:struct CapabilityClassSurface", "layout:struct OperationalMode",
             "layout:enum ADSBVersion", "layout:enum BDS", "layout:struct ControlField"]
@@ -93,10 +94,13 @@ class C02(Prop):
 
 class C03(Prop):
     id = "C03"; module = "Adsb.Theorems.C03"; design_ref = "5/C03"
+    modules = ["Adsb.Theorems.C03", "Adsb.Theorems.C03b"]
     deps = ["shape:modes_checksum", "shape:Frame::read_crc", "shape:ReaderCrc::read", "shape:ReaderCrc::seek"]
     rule = ("every byte value at every byte position of 3 background frames per format length; frames of every format followed by 1..18 further bytes; all single and double bit flips of valid "
             "squitters; random weight<=5 patterns and bursts<=24; address/interrogator overlays; non-trivial = distinct (frame, crc) pairs")
-    claim = ("crc = remainder mod 0x1FFF409 of the leading bits xor last 24 bits (theorem over all byte strings); table regenerated from source and proved equal to the "
+    claim = ("modes_checksum as translated from crc.rs on this run (loop, u32 arithmetic, index and overflow checks written out) never panics and equals the BitVec-24 model for every byte string "
+             "(Theorems/C03b: src_modes_checksum, src_checksum_is_syndrome, src_checksum_refuses_short); "
+             "crc = remainder mod 0x1FFF409 of the leading bits xor last 24 bits (theorem over all byte strings); table regenerated from source and proved equal to the "
              "polynomial remainders; crc = a iff last 24 bits = parity xor a (address / interrogator overlay); every burst of <= 24 bits and every pattern of 1..5 bit flips "
              "in <= 112 bits has a non-zero syndrome (burst24_detected, weight5_detected: parity of g(1)=0 for odd weights, kernel-checked distinctness of the 6329 sums of at most "
              "two residues x^k mod g for weights 2 and 4), lifted to Frame.crc (corrupted_squitter_crc_ne_zero)")
@@ -1118,7 +1122,7 @@ class C19(Prop):
 
 class C01(Prop):
     id = "C01"; module = "Adsb.Theorems.C01"; design_ref = "5/C01"
-    modules = ["Adsb.Theorems.C01", "Adsb.Theorems.C06b"]
+    modules = ["Adsb.Theorems.C01", "Adsb.Theorems.C06b", "Adsb.Theorems.C03b"]
     # the inventory of unwrap / expect / panic-family macros / indexing / narrowing casts in the two library crates, and - because the
     # totality theorems are about the model of the *whole* decoder - every layout item and every modelled function body
     deps = ["panic:", "layout:", "shape:"]
